@@ -552,5 +552,8 @@ func main() {
 	corpusRuns(*corpus, *outDir)
 	decoderRuns(r.Fork(), *nDec, *outDir)
 	wk.Close(st)
+	ws := &sim.CaseWriter{OutDir: *outDir, Name: "c19sign", Imports: "From V Require Import Bytes Proto.", CaseType: "pcase", MFun: "proto_mismatches", VFun: "", PerShard: 150}
+	signBytesCases(r.Fork(), *nKey, ws, *outDir)
+	ws.Close(st)
 	fmt.Printf("c19: %d key cases (%d distinct), %d decoder inputs (%d accepted, %d rejected), %d panics, %d hangs\n", st.Cases, st.Distinct, st.DecodeRuns, st.DecodeOK, st.DecodeRej, st.Panics, st.Hangs)
 }
